@@ -72,8 +72,9 @@ def render_range(r):
     return '%d:%d' % (r[1], r[2])
 
 
-def text_of(n, final_newline=True):
-    t = ''.join('L%d\n' % i for i in range(1, n + 1))
+def text_of(n, final_newline=True, ctl=False):
+    # ctl: every line ends with a form feed - a character of the LINE (str.splitlines would divide the text there)
+    t = ''.join('L%d%s\n' % (i, '\x0c' if ctl else '') for i in range(1, n + 1))
     if not final_newline and t:
         t = t[:-1]
     return t
@@ -85,18 +86,21 @@ def exec_batch(task, cd):
     from harness import inproc
     n = task['n']
     nl = task.get('final_newline', True)
-    cd.write({'in0.txt': '', 'in1.txt': text_of(1, nl), 'inN.txt': text_of(n, nl)})
+    ctl = bool(task.get('ctl'))
+    cd.write({'in0.txt': '', 'in1.txt': text_of(1, nl, ctl), 'inN.txt': text_of(n, nl, ctl)})
     literal = task.get('source') == 'literal'      # the text held in memory (a string) instead of read from a file
 
     def src(name):
         if not literal:
             return '-contents-of -rel-home in%s.txt' % name
-        t = text_of({'0': 0, '1': 1, 'N': n}[name], nl)
+        t = text_of({'0': 0, '1': 1, 'N': n}[name], nl, ctl)
         return '"%s"' % t.replace('\n', '@[NEW_LINE]@')
 
     lines = []
     for j, f in enumerate(task['filters']):
         for name in ('0', '1', 'N'):
+            if ctl:
+                f = f.replace("'^L[13579]$'", "'^L[13579]\\f$'")
             lines.append('file o%d_%s.txt = %s -transformed-by filter %s' % (j, name, src(name), f))
     cd.write({'c.case': '[setup]\n' + '\n'.join(lines) + '\n'})
     r = inproc.run_main(['--keep', 'c.case'], cd)
@@ -171,6 +175,8 @@ def selected(text, n):
         parts = parts[:-1]
     out = []
     for p in parts:
+        if p.endswith('\x0c'):
+            p = p[:-1]
         if not (p.startswith('L') and p[1:].isdigit()):
             return None
         out.append(int(p[1:]))
@@ -183,13 +189,13 @@ def check_items(ctx, items, n, label, per_case=8):
     for j in range(0, len(items), per_case):
         chunk = items[j:j + per_case]
         tasks.append(dict(n=n, filters=[it['arg'] for it in chunk], final_newline=(j // per_case) % 2 == 0,
-                          source='literal' if (j // per_case) % 4 >= 2 else 'file'))
+                          source='literal' if (j // per_case) % 4 >= 2 else 'file', ctl=(j // per_case) % 8 >= 4))
     with ctx.pool() as pool:
         obs = pool.map('harness.props.c13:exec_batch', tasks, deadline=120, chunk=4)
         # a batch that did not PASS as a whole is re-run item by item (so that one bad item does not hide the others)
         redo = [(ti, k) for ti, o in enumerate(obs) if o.get('outs') is None for k in range(len(tasks[ti]['filters']))]
         redo_tasks = [dict(n=n, filters=[tasks[ti]['filters'][k]], final_newline=tasks[ti]['final_newline'],
-                           source=tasks[ti]['source']) for ti, k in redo]
+                           source=tasks[ti]['source'], ctl=tasks[ti]['ctl']) for ti, k in redo]
         redo_obs = pool.map('harness.props.c13:exec_batch', redo_tasks, deadline=60, chunk=4) if redo else []
     single = {(ti, k): o for (ti, k), o in zip(redo, redo_obs)}
     bad = 0
